@@ -384,3 +384,12 @@ func (c *Conn) UserList() ([]hlref.User, error) {
 	}
 	return us, nil
 }
+
+// PeekTrans parses the not-yet-taken bytes into transactions without waiting for
+// quiescence and without consuming them (live tests: observe the instant a reply arrives).
+func (c *Conn) PeekTrans() []hlref.Tran {
+	c.mu.Lock()
+	defer c.mu.Unlock()
+	ts, _, _ := hlref.DecodeStream(c.rx[c.taken:])
+	return ts
+}
